@@ -1,6 +1,6 @@
 SPECIFICATION Spec
 CONSTANTS
-  Ns = {8}
+  Ns = {4}
   Rs = {5}
   Spans = {1}
   Mashes = {1}
